@@ -40,3 +40,18 @@ func VerifBatch(transportName string, maxPayload int64, packets []*parser.Packet
 	s.Send(packets...)
 	return t.batches
 }
+
+// VerifBase64IDSeq returns the sequence number that the next generated id will carry.
+func VerifBase64IDSeq() uint32 {
+	base64IDMu.Lock()
+	defer base64IDMu.Unlock()
+	return base64IDSeq
+}
+
+// VerifSetBase64IDSeq sets the sequence number of the next generated id: a wrap of the sequence (2^24 ids later)
+// without drawing that many ids.
+func VerifSetBase64IDSeq(v uint32) {
+	base64IDMu.Lock()
+	base64IDSeq = v
+	base64IDMu.Unlock()
+}
